@@ -9,6 +9,7 @@ obs   : {"applied": bool, "out": [[t_ms, kind, ...], ...], "state": str, "now": 
 
 cfg   : role, failByDrop, echo, openTO, closeTO, dropTO, pingInt, pingTO (all ms), pingSize, restart, t0 (ms)
 events: ["hs"] ["badhs"] ["sendClose", code|null, reasonhex|null] ["sendMessage"] ["sendPing"] ["sendPong"]
+        ["sendMessageSync"] ["sendChopped"] ["tickus", microseconds]   (send queue; not in the Gallina model)
         ["peerClose", code|null, reasonhex|null] ["peerClose1"] ["peerData"] ["peerPing"] ["peerPong", matching]
         ["peerViolation"] ["peerInvalid"] ["tick", t_ms] ["tickrel", "next"|ms] ["peerDrop", clean] ["ownDrop"]
 All times must be multiples of 125 ms (dyadic => exact in binary floating point on both virtual clocks).
@@ -90,10 +91,15 @@ class Case:
     def sec(ms):
         return ms // 1000 if ms % 1000 == 0 else ms / 1000.0
 
+    @staticmethod
+    def ms(t):
+        """seconds -> milliseconds: an int on the millisecond grid, else a float with microsecond resolution"""
+        us = round(t * 1e6)
+        assert abs(t * 1e6 - us) < 1e-3, t
+        return us // 1000 if us % 1000 == 0 else us / 1000.0
+
     def now_ms(self):
-        t = self.env.now() * 1000.0
-        assert abs(t - round(t)) < 1e-6, t
-        return int(round(t))
+        return self.ms(self.env.now())
 
     def settle(self):
         """run what is ready now without firing timers (asyncio call_soon queue)"""
@@ -112,51 +118,57 @@ class Case:
             ts = [w for (w, _, h) in self.env.loop._timers if not h._cancelled]
         return min(ts) if ts else None
 
+    @staticmethod
+    def snap(t):
+        """nearest whole microsecond as a float (the grid values themselves are dyadic and unchanged by this)"""
+        return round(t * 1e6) / 1e6
+
+    def goto(self, d):
+        """put the virtual clock at time d (never below the nearest whole microsecond, so that float dust of
+        'now + 1e-5' style sums cannot push int(now + delay) into the previous second) and run what is due"""
+        t = max(self.snap(d), d)
+        try:
+            if FW == "tx":
+                if t > self.env.clock.rightNow:
+                    self.env.clock.rightNow = t
+                self.env.clock.advance(0)
+            else:
+                n0 = len(self.env.loop.exceptions)
+                if t > self.env.loop._t:
+                    self.env.loop._t = t
+                self.env.loop.advance(0)
+                for ctx in self.env.loop.exceptions[n0:]:
+                    e = ctx.get("exception")
+                    self.log.append(["escaped", type(e).__name__, str(e)[:200]])
+        except BaseException as e:       # Twisted's Clock lets exceptions of delayed calls propagate
+            self.log.append(["escaped", type(e).__name__, str(e)[:200]])
+
     def tick(self, t_ms):
         """advance to t_ms stopping at every pending deadline on the way (so that handlers see the time they were
         scheduled for on both virtual clocks); log entries are stamped with the time of the sub-step"""
-        target = t_ms / 1000.0
+        target = self.snap(t_ms / 1000.0)
         guard = 0
         while True:
             guard += 1
-            assert guard < 10000
+            assert guard < 100000
             d = self.next_deadline()
-            now = self.env.now()
-            if d is not None and d <= target:
+            if d is not None and d <= target + 1e-9:
                 self.marks.append((len(self.log), None))
-                self.adv(max(0.0, d - now))
+                self.goto(d)
                 self.marks[-1] = (self.marks[-1][0], self.now_ms())
             else:
                 break
         if target > self.env.now():
             self.marks.append((len(self.log), None))
-            self.adv(target - self.env.now())
+            self.goto(target)
             self.marks[-1] = (self.marks[-1][0], self.now_ms())
-
-    def adv(self, dt):
-        try:
-            if FW == "aio":
-                n0 = len(self.env.loop.exceptions)
-                self.env.advance(dt)
-                for ctx in self.env.loop.exceptions[n0:]:
-                    e = ctx.get("exception")
-                    self.log.append(["escaped", type(e).__name__, str(e)[:200]])
-            else:
-                self.env.advance(dt)
-        except BaseException as e:       # Twisted's Clock lets exceptions of delayed calls propagate
-            self.log.append(["escaped", type(e).__name__, str(e)[:200]])
 
     def timers(self):
         if FW == "tx":
             ts = [c.getTime() for c in self.env.clock.getDelayedCalls()]
         else:
             ts = [w for (w, _, h) in self.env.loop._timers if not h._cancelled]
-        out = []
-        for t in ts:
-            m = t * 1000.0
-            assert abs(m - round(m)) < 1e-6, t
-            out.append(int(round(m)))
-        return sorted(out)
+        return sorted(self.ms(t) for t in ts)
 
     # ---- peer side ----
     def feed(self, data):
@@ -210,6 +222,18 @@ class Case:
             c.call("sendClose", **kw); self.settle()
         elif k == "sendMessage":
             c.call("sendMessage", b"m", True); self.settle()
+        elif k == "sendMessageSync":        # trickled through send_queue/_trigger/_send (_QUEUED_WRITE_DELAY)
+            self.nsync = getattr(self, "nsync", 0) + 1
+            c.call("sendMessage", b"s%d" % self.nsync, True, None, True); self.settle()
+        elif k == "sendChopped":            # a frame written in 1-octet chops through the same queue
+            # sendFrame is the unguarded low-level (fuzzing) API: "deliberately allows to send invalid frames ... because
+            # of protocol state"; use it only where sendMessage would send
+            if st != "OPEN":
+                return False
+            c.call("sendFrame", opcode=2, payload=b"cc", chopsize=1); self.settle()
+        elif k == "tickus":                 # advance by ev[1] microseconds
+            self.resolved = None
+            self.tick((round(self.env.now() * 1e6) + int(ev[1])) / 1000.0)
         elif k == "sendPing":
             c.call("sendPing", b"p"); self.settle()
         elif k == "sendPong":
@@ -287,7 +311,10 @@ class Case:
                     out.append([t, "http"])
                     continue
                 self.wbuf += data
-                frames, rest = wsdrv.parse_frames(self.wbuf)
+                try:
+                    frames, rest = wsdrv.parse_frames(self.wbuf)
+                except ValueError as e:
+                    out.append([t, "badframe", "unparsable: " + str(e)]); frames, rest = [], b""
                 self.wbuf = rest
                 for f in frames:
                     if (self.role == "client") != f["masked"] or not f["fin"] or f["rsv"]:
@@ -308,7 +335,7 @@ class Case:
                     elif op == 10:
                         out.append([t, "wpong"])
                     elif op in (1, 2):
-                        out.append([t, "wdata"])
+                        out.append([t, "wdata", pl.decode("latin1")])
                     else:
                         out.append([t, "badframe", op])
             elif k in ("lose", "abort"):
